@@ -27,7 +27,7 @@ class Inst:
                  tier='quick', pre='', loop_contracts=None, nondet_volatile=False, solvers=('minisat',),
                  timeout=120, unwind=None, extra_cbmc=(), also_enforce=(), note='', kind='proof',
                  replay=None, expect_compile_error=False, opts=None, defines=(), root_pick=None,
-                 canary=True, object_bits=None, globals_init=None, extra_replace=()):
+                 canary=True, object_bits=None, globals_init=None, extra_replace=(), pre_defines=''):
         self.name = name
         self.params = params          # C++ parameter list of the snippet
         self.expr = expr              # C++ statement(s) using the operation under contract
@@ -54,6 +54,7 @@ class Inst:
         self.canary = canary
         self.object_bits = object_bits
         self.globals_init = globals_init
+        self.pre_defines = pre_defines            # C text emitted before the spec headers are included
         self.extra_replace = list(extra_replace)   # contract stubs declared in `pre` (libc models), replaced at call sites
 
 
@@ -92,6 +93,26 @@ LEAVES = {
         '__CPROVER_requires(__CPROVER_r_ok($this, sizeof(*$this)))\n'
         '__CPROVER_requires(g_backend_nonnull ==> $0 != 0)\n'
         '__CPROVER_ensures(V_IN($this->slot, (uintptr_t)$0) ==> (uintptr_t)$ret == (uintptr_t)$0 - V_BASE[$this->slot])\n'
+        '__CPROVER_assigns()'),
+    # no-context forms: the sandbox is the one whose region contains the example address
+    'vsbx.impl_get_unsandboxed_pointer_no_ctx': (_is('impl_get_unsandboxed_pointer_no_ctx', 'vsbx'),
+        '__CPROVER_requires(g_backend_nonnull ==> $0 != 0)\n'
+        '__CPROVER_requires(V_WHICH((uintptr_t)$1) != -1)\n'
+        '__CPROVER_requires(g_expect_example == 0 || (uintptr_t)$1 == g_expect_example)\n'
+        '__CPROVER_ensures(V_IN(V_WHICH((uintptr_t)$1), (uintptr_t)$ret))\n'
+        '__CPROVER_ensures((uintptr_t)$0 < V_SIZE[V_WHICH((uintptr_t)$1)] ==> (uintptr_t)$ret == V_BASE[V_WHICH((uintptr_t)$1)] + (uintptr_t)$0)\n'
+        '__CPROVER_assigns()'),
+    'vsbx.impl_get_sandboxed_pointer_no_ctx': (_is('impl_get_sandboxed_pointer_no_ctx', 'vsbx'),
+        '__CPROVER_requires(g_backend_nonnull ==> $0 != 0)\n'
+        '__CPROVER_requires(V_WHICH((uintptr_t)$1) != -1)\n'
+        '__CPROVER_requires(g_expect_example == 0 || (uintptr_t)$1 == g_expect_example)\n'
+        '__CPROVER_ensures(V_IN(V_WHICH((uintptr_t)$1), (uintptr_t)$0) ==> (uintptr_t)$ret == (uintptr_t)$0 - V_BASE[V_WHICH((uintptr_t)$1)])\n'
+        '__CPROVER_assigns()'),
+    # allocation: arbitrary guest pointer (a hostile or buggy allocator); nothing visible changes
+    'vsbx.impl_malloc_in_sandbox': (_is('impl_malloc_in_sandbox', 'vsbx'),
+        '__CPROVER_requires(__CPROVER_r_ok($this, sizeof(*$this)))\n__CPROVER_requires(g_expect_malloc_size == 0 || MI($0) == MI(g_expect_malloc_size))\n__CPROVER_assigns()'),
+    # the process-wide finder is only ever handed to the backend (never called by the core directly)
+    'find_sandbox_from_example': (_is('find_sandbox_from_example'),
         '__CPROVER_assigns()'),
 }
 
@@ -164,6 +185,25 @@ def find_root(tu, inst_fn):
     if fn is None:
         raise ExtractError('root of snippet %s has no instantiated body' % inst_fn.get('name'))
     return fn
+
+
+def find_func(tu, name, rec_prefix=None, pick=None):
+    """instantiated function(s) by C++ name and (prefix of) the enclosing record's display name"""
+    out = []
+    for fid, fn in tu.funcs.items():
+        if fn.get('name') != name:
+            continue
+        rec = tu.parent_rec.get(fid)
+        rn = tu.rec_name.get(rec['id'], '') if rec else ''
+        if rec_prefix is not None and not rn.startswith(rec_prefix):
+            continue
+        if pick is not None and not pick(fn, rn):
+            continue
+        out.append(fn)
+    ids = {f['id'] for f in out}
+    if len(ids) != 1:
+        raise ExtractError('find_func(%s, %s): %d candidates' % (name, rec_prefix, len(ids)))
+    return out[0]
 
 
 class UnitResult:
@@ -245,6 +285,8 @@ class Unit:
         out = []
         out.append('/* generated by /verif from the instantiated clang AST of /repo/code/include; instance %s */' % it.name)
         out.append('/* root: %s  [%s] */' % (root.get('name'), root.get('mangledName')))
+        if it.pre_defines:
+            out.append(it.pre_defines)
         out.append('#include "prelude.h"')
         out.append('#include "facts.h"')
         gl = {}
@@ -291,7 +333,8 @@ class Unit:
                     sites[a] = {'caller': em.site_alias[a][2], 'call': em.site_alias[a][3]}
             else:
                 protos.append('%s\n%s;' % (sig, subst(text, names)))
-                leaf_names.append(em.fname(fn))
+                if fid in em.leaf_called:      # goto-instrument rejects --replace-call-with-contract for a function never called
+                    leaf_names.append(em.fname(fn))
         for fid in order:
             if fid != root['id']:
                 protos.append(em.sig_text[fid] + ';')
